@@ -137,6 +137,8 @@ pub fn place_sell_limit_order<R: RngCore, D: Distribution<f64>>(
     let dist = price_dist.sample(rng).abs();
     let price = mid_price + dist;
     let price = round_price_up(price, tick_size);
+    // The maximum price (used when clamping) may not be on the tick grid
+    let price = price - price % (tick_size as Price);
     env.place_order(Side::Ask, trade_vol, trader_id, Some(price))
 }
 
@@ -253,6 +255,8 @@ pub fn place_sell_limit_order_market<
     let dist = price_dist.sample(rng).abs();
     let price = mid_price + dist;
     let price = round_price_up(price, tick_size);
+    // The maximum price (used when clamping) may not be on the tick grid
+    let price = price - price % (tick_size as Price);
     env.place_order(asset, Side::Ask, trade_vol, trader_id, Some(price))
 }
 
